@@ -171,6 +171,18 @@ check("C11", "DESIGN.md 5/C11",
       "Trusted: sqrt for the polynomial normalisation and a 1e-10 float comparison in the harness. Polynomial contrasts exact to n = 5 "
       "(32-bit rationals).")
 
+check("C13", "DESIGN.md 5/C13",
+      "TLA+ module PolyScale.tla (exact rational statistics, Gram-Schmidt polynomials with explicit coefficient vectors) model-checked in "
+      "TLC; exhaustive replay of every bounded integer vector through scale / center / standardize / poly and spec reuse; elementwise "
+      "functions on integers",
+      "TLC proves for every integer vector in the bound that centred data sums to zero, scaled data has sum of squares n - ddof, the "
+      "polynomial columns are orthogonal, monic and orthogonal to the constant, and that applying recorded state is row-local; the real "
+      "transforms are executed on every case (direct calls with _state where the recorded state must win over contradictory arguments, "
+      "model_matrix and spec reuse on follow-up vectors, NaN propagation) and compared with (exact rational)/sqrt(exact rational); "
+      "exp10/exp2/log10/log2 are exact on k = 0..8 and each function inverts its partner on a grid.",
+      "Stated limit: 32-bit rationals keep the exact grid small (length <= 4-5 over -2..3); 'any magnitude' is outside this family's reach. "
+      "Trusted: sqrt and a 1e-9 comparison in the harness.")
+
 NOT_YET = "check not yet built in this round (planned; see DESIGN.md section 5)"
 
 
